@@ -456,6 +456,28 @@ def readable(stream, fields):
     return out
 
 
+PID_PLACEHOLDER = "4194305"      # one above the largest pid the kernel hands out by default; the model's value of `$$`
+
+
+def subst_pid(text, pid):
+    """replace the hex image of the placeholder, at even offsets inside each run of hex digits, by the hex image of `pid`"""
+    ph, rep = hx(PID_PLACEHOLDER), hx(pid)
+    if ph not in text:
+        return text
+
+    def one(mo):
+        run, out, k = mo.group(0), [], 0
+        while k < len(run):
+            if run.startswith(ph, k):
+                out.append(rep)
+                k += len(ph)
+            else:
+                out.append(run[k:k + 2])
+                k += 2
+        return "".join(out)
+    return re.sub(r"[0-9a-f]+", one, text)
+
+
 def judge(rep, cases, impl, model, known, classify_nontrivial=None, max_report=3, spec_mode=None, project=None):
     """apply the verdict rules of DESIGN 2.3 to in-process / process-level observations."""
     open_k = {k["class"]: k for k in known.get("open", []) if k["property"] == rep.prop}
@@ -473,6 +495,11 @@ def judge(rep, cases, impl, model, known, classify_nontrivial=None, max_report=3
             diverging.append((c, o, ("MISSING", "-", "-", "-")))
             continue
         M, S, g, cls = m
+        if "\t@pid=" in o:
+            # the case mentions `$$`: the harness reports the pid it ran under; it takes the place of the model's placeholder
+            o, pid = o.rsplit("\t@pid=", 1)
+            M, S = subst_pid(M, pid), subst_pid(S, pid)
+            m = (M, S, g, cls)
         if M.startswith("UNMODELLED"):
             rep.count("unmodelled")
             continue
